@@ -353,6 +353,33 @@ def _same_value(a, b):
     return show(a) == show(b)
 
 
+def rt_records_roundtrip(C, rep, rid):
+    rep.rule(rid, "what the store writes it can read back: the generated Serialize and Deserialize code of the persisted record types use the same field encodings (a `serialize_with` / `with` helper on one side only makes every record written unreadable - the hash is stuck on whatever the record said)")
+    F = C.F
+    recs = {}
+    for k, b in F.by_cdef.items():
+        m = re.search(r"(Serialize|Deserialize<'de>) for (store::[A-Za-z0-9_]+)>", k)
+        if not m:
+            continue
+        side = "ser" if m.group(1) == "Serialize" else "de"
+        d = recs.setdefault(m.group(2), {"ser": set(), "de": set(), "n": 0})
+        d["n"] += 1
+        for c in b.calls:
+            n = c.resolved or c.name
+            if c.noise or "_serde" in n or "::_::" in n or n.startswith("core::") or n.startswith("std::") or n.startswith("<"):
+                continue
+            if n.startswith("serde::") or n.startswith("serde_json::"):
+                continue
+            # a helper named by `with = ".."` / `serialize_with` / `deserialize_with`: keep its module as the encoding's name
+            mod_ = n.rsplit("::", 1)[0]
+            d[side].add(mod_)
+    rep.anchor(rid, "persisted record types with generated serde code", len([r for r, d in recs.items() if d["n"] >= 2]), 2)
+    for r, d in sorted(recs.items()):
+        ok = d["ser"] == d["de"]
+        rep.ob(rid, ok, r, "same field encodings on the write and the read side", how="write %s / read %s" % (sorted(d["ser"]) or "plain", sorted(d["de"]) or "plain"),
+               detail="" if ok else "%s is written with %s but read with %s: a record the plugin wrote cannot be parsed when it is read back (every later HTLC of that hash is failed)" % (r.split("::")[-1], sorted(d["ser"]) or "plain serde", sorted(d["de"]) or "plain serde"))
+
+
 def w4_fetch_mapping(C, rep, rid):
     rep.rule(rid, "fetch_payment_info maps 'no entry' to Free and an entry to its own variant; decode failures are errors")
     F, X = C.F, C.X
